@@ -16,6 +16,7 @@ import (
 	ort "github.com/php-any/origami/runtime"
 	"github.com/php-any/origami/std"
 	"github.com/php-any/origami/std/channel"
+	"github.com/php-any/origami/utils/vshim"
 
 	"verif/engine/sched"
 )
@@ -23,8 +24,26 @@ import (
 func scriptOf(sc scenario) string {
 	var sb strings.Builder
 	fmt.Fprintf(&sb, "$ch = new Channel(%d);\n", sc.Cap)
+	// "S<k>" roles: producers spawned from ONE closure value, so that all of them execute the very
+	// same AST nodes (the same `$ch->send(...)` call site, the same loop); cid() hands each its id
+	sharedDone := false
 	for i, r := range sc.Roles {
 		switch r[0] {
+		case 'S', 'G':
+			if sharedDone {
+				sb.WriteString("spawn($producer);\n")
+				continue
+			}
+			sharedDone = true
+			n := int(r[1] - '0')
+			// 'G': a second (ignored) argument whose evaluation yields to the scheduler, so that another
+			// producer can pass through the same call site between the evaluation of the value and the call
+			extra := ""
+			if r[0] == 'G' {
+				extra = ", cgate()"
+			}
+			fmt.Fprintf(&sb, "$producer = function() use ($ch) {\n  $id = cid();\n  for ($k = 0; $k < %d; $k++) { cmark($id); $ok = $ch->send($id * 10 + $k%s); csent($id, $id * 10 + $k, $ok); }\n};\nspawn($producer);\n", n, extra)
+			_ = i
 		case 'P':
 			n := int(r[1] - '0')
 			fmt.Fprintf(&sb, "spawn(function() use ($ch) {\n")
@@ -65,6 +84,22 @@ func buildScript(sc scenario) (func() []sched.Body, func() *scriptState) {
 		vm := ort.NewVM(p)
 		std.Load(vm)
 		rv := vm.(*ort.VM)
+		nextID := 0
+		rv.RegisterFunction("cid", func() int {
+			// ids of the shared-closure producers: the indexes of the S roles, in arrival order
+			k := 0
+			for i, r := range sc.Roles {
+				if r[0] == 'S' || r[0] == 'G' {
+					if k == nextID {
+						nextID++
+						return i
+					}
+					k++
+				}
+			}
+			return 99
+		})
+		rv.RegisterFunction("cgate", func() int { vshim.Yield("cgate"); return 0 })
 		rv.RegisterFunction("cmark", func(t int) int { marks[t] = sched.Now(); return 0 })
 		rv.RegisterFunction("csent", func(t int, v int, ok bool) int {
 			st.sends = append(st.sends, sendRec{t, v, marks[t], sched.Now(), ok})
